@@ -4,9 +4,10 @@ import Driver.Util
 import Driver.Bucket
 /-
   Line protocol for C15 (fault injection and atomic puts):
-    wobj <helper> <hexpath> <chunks> <faults>      helper: putpath | copyreader
+    wobj <helper> <hexpath> <chunks> <faults>      helper: putpath | copyreader | forwriteobject | copyreadobject
     copy <jobs> <faults>                           jobs: hexpath=c1+c2,...   (order = run order)
-    untar <entries> <faults>                       entries: hexname=c1+c2,...
+    untar|unzip <entries> <faults>                 entries: hexname=c1+c2,...
+    archw <tar|zip> <bodyFails> <closeFails>       Tar/Zip into a failing io.Writer
     atomic <old> <chunks> <failAt>                 old/failAt: "-" for none
     aprefix <old> <chunks> <j>
     flush <fails bits|->                           -> err|ok + number of outputs flushed
@@ -55,6 +56,8 @@ def handle : List String → String
     | some p, some s =>
       let r := match helper with
         | "copyreader" => copyReader fx s ⟨[], []⟩ (s2l p) (parseChunks cs)
+        | "forwriteobject" => forWriteObject fx s ⟨[], []⟩ (s2l p) (parseChunks cs)
+        | "copyreadobject" => copyReadObject fx s ⟨[], []⟩ (s2l p) (parseChunks cs)
         | _ => putPath fx s ⟨[], []⟩ (s2l p) (parseChunks cs)
       res r.1 ++ "|" ++ showDest r.2
     | _, _ => "bad-op"
@@ -70,6 +73,14 @@ def handle : List String → String
       let r := untarAll fx s ⟨[], []⟩ ents
       res r.1 ++ "|" ++ showDest r.2
     | _, _ => "bad-op"
+  | ["unzip", es, fs] =>
+    match parseJobs es, parseSched fs with
+    | some ents, some s =>
+      let r := unzipAll fx s ⟨[], []⟩ ents
+      res r.1 ++ "|" ++ showDest r.2
+    | _, _ => "bad-op"
+  | ["archw", kind, b, c] =>
+    res ((if kind = "tar" then tarOut fx else zipOut fx) (b == "1") (c == "1"))
   | ["flush", bits] =>
     let fs := if bits = "-" then [] else bits.toList.map (· == '1')
     let r := flushOuts fs
